@@ -253,8 +253,31 @@ def catalog_listing_unfiltered(prog, cg, eff, chk, rid):
     for f in prog.functions.values():
         if f.body is None or f.is_pattern or 'schema_validate_utils' not in (f.file or ''):
             continue
-        for s_ in _sites.find_sites(f):
-            txt = s_.text
+        texts = [(s_.text, s_) for s_ in _sites.find_sites(f)]
+        if texts and f.params:
+            # the statement may take part of its text from a parameter (a helper shared by two constructors):
+            # read it once per caller with the caller's argument in place of the parameter
+            for g in prog.functions.values():
+                if g.body is None or g.is_pattern or 'schema_validate_utils' not in (g.file or '') or g.key == f.key:
+                    continue
+                env_g = _sites._string_locals(g)
+                for e in cg.edges(g):
+                    if f not in e.targets:
+                        continue
+                    args = children(e.node)[1:]
+                    rendered = {}
+                    for p_, a in zip(f.params, args):
+                        parts = _sites._merge(_sites.sql_parts(a, env_g))
+                        rendered[p_.get('name')] = ''.join(x if isinstance(x, str) else '${%s}' % x.desc for x in parts)
+                    for txt0, s0 in list(texts):
+                        t2 = txt0
+                        for pn_, val in rendered.items():
+                            t2 = t2.replace('${%s}' % pn_, val)
+                        if t2 != txt0:
+                            texts.append((t2, s0))
+            if any('sqlite_master' in t for t, _ in texts):
+                texts = [(t, s0) for t, s0 in texts if 'sqlite_master' in t or not re.search(r'FROM \$\{', t)]
+        for txt, s_ in texts:
             m = re.search(r'\bsqlite_master\b(.*)$', txt, re.I | re.S)
             if not m or not re.match(r'^\s*SELECT\b', txt, re.I):
                 continue
